@@ -342,3 +342,189 @@ Proof.
     { apply ri_cell. apply (proj1 (Hm jn)); [cbn; lia|lia]. }
     congruence.
 Qed.
+
+(* ====================== 5. stars and their maximal centres ====================== *)
+Lemma forallb_false_ex {A} (p : A -> bool) l : forallb p l = false -> exists x, In x l /\ p x = false.
+Proof.
+  induction l as [|a l IH]; cbn; [discriminate|]. intros H. apply andb_false_iff in H.
+  destruct H as [H|H]; [exists a; auto|]. destruct (IH H) as (x & Hx & Hp). exists x; auto.
+Qed.
+
+Section Star.
+  Variable f : nat -> nat -> bool.
+  Variables nr nc : nat.
+  Hypothesis support : forall i j, f i j = true -> i < nr /\ j < nc.
+
+  Definition sfull (t : SRect) : Prop :=
+    forall i j, rlo t <= i <= rhi t -> clo t <= j <= chi t -> f i j = true.
+  (* every one is in t or joined to t by a straight run of ones within t's extent *)
+  Definition strips (t : SRect) : Prop := forall i j, f i j = true ->
+    (rlo t <= i <= rhi t /\ clo t <= j <= chi t) \/
+    (clo t <= j <= chi t /\ i < rlo t /\ forall i', i <= i' < rlo t -> f i' j = true) \/
+    (clo t <= j <= chi t /\ rhi t < i /\ forall i', rhi t < i' <= i -> f i' j = true) \/
+    (rlo t <= i <= rhi t /\ j < clo t /\ forall j', j <= j' < clo t -> f i j' = true) \/
+    (rlo t <= i <= rhi t /\ chi t < j /\ forall j', chi t < j' <= j -> f i j' = true).
+  Definition star (t : SRect) : Prop := rlo t <= rhi t /\ clo t <= chi t /\ sfull t /\ strips t.
+
+  Definition rowsq (t : SRect) := seq (rlo t) (S (rhi t) - rlo t).
+  Definition colsq (t : SRect) := seq (clo t) (S (chi t) - clo t).
+  Definition westfull (t : SRect) : bool := (0 <? clo t) && forallb (fun k => f k (clo t - 1)) (rowsq t).
+  Definition eastfull (t : SRect) : bool := forallb (fun k => f k (S (chi t))) (rowsq t).
+  Definition northfull (t : SRect) : bool := (0 <? rlo t) && forallb (fun j => f (rlo t - 1) j) (colsq t).
+  Definition southfull (t : SRect) : bool := forallb (fun j => f (S (rhi t)) j) (colsq t).
+
+  Lemma star_in_grid t : star t -> rhi t < nr /\ chi t < nc.
+  Proof. intros (A & B & F & _). apply support. apply F; lia. Qed.
+
+  Ltac star_cases Q i j H :=
+    destruct (Q i j H) as [(?&?)|[(?&?&?)|[(?&?&?)|[(?&?&?)|(?&?&?)]]]].
+
+  Lemma grow_west t : star t -> westfull t = true -> star (mkSR (rlo t) (rhi t) (clo t - 1) (chi t)).
+  Proof.
+    intros (A & B & F & Sp) H. unfold westfull in H. apply andb_true_iff in H. destruct H as [H0 H].
+    apply Nat.ltb_lt in H0. rewrite forallb_forall in H.
+    assert (L : forall k, rlo t <= k <= rhi t -> f k (clo t - 1) = true).
+    { intros k Hk. apply H. unfold rowsq. apply in_seq. lia. }
+    unfold star, sfull, strips. cbn [rlo rhi clo chi]. repeat split; try lia.
+    - intros i j Hi Hj. destruct (Nat.eq_dec j (clo t - 1)) as [->|Hne]; [apply L; lia|apply F; lia].
+    - intros i j Hij. star_cases Sp i j Hij.
+      + left. lia.
+      + right; left. repeat split; auto; lia.
+      + right; right; left. repeat split; auto; lia.
+      + destruct (Nat.eq_dec j (clo t - 1)) as [->|Hne]; [left; lia|].
+        right; right; right; left. repeat split; try lia. intros j' Hj'. auto with arith.
+        match goal with X : forall j', _ -> f i j' = true |- _ => apply X; lia end.
+      + right; right; right; right. repeat split; auto; lia.
+  Qed.
+
+  Lemma grow_east t : star t -> eastfull t = true -> star (mkSR (rlo t) (rhi t) (clo t) (S (chi t))).
+  Proof.
+    intros (A & B & F & Sp) H. unfold eastfull in H. rewrite forallb_forall in H.
+    assert (L : forall k, rlo t <= k <= rhi t -> f k (S (chi t)) = true).
+    { intros k Hk. apply H. unfold rowsq. apply in_seq. lia. }
+    unfold star, sfull, strips. cbn [rlo rhi clo chi]. repeat split; try lia.
+    - intros i j Hi Hj. destruct (Nat.eq_dec j (S (chi t))) as [->|Hne]; [apply L; lia|apply F; lia].
+    - intros i j Hij. star_cases Sp i j Hij.
+      + left. lia.
+      + right; left. repeat split; auto; lia.
+      + right; right; left. repeat split; auto; lia.
+      + right; right; right; left. repeat split; auto; lia.
+      + destruct (Nat.eq_dec j (S (chi t))) as [->|Hne]; [left; lia|].
+        right; right; right; right. repeat split; try lia. intros j' Hj'.
+        match goal with X : forall j', _ -> f i j' = true |- _ => apply X; lia end.
+  Qed.
+
+  Lemma grow_north t : star t -> northfull t = true -> star (mkSR (rlo t - 1) (rhi t) (clo t) (chi t)).
+  Proof.
+    intros (A & B & F & Sp) H. unfold northfull in H. apply andb_true_iff in H. destruct H as [H0 H].
+    apply Nat.ltb_lt in H0. rewrite forallb_forall in H.
+    assert (L : forall j, clo t <= j <= chi t -> f (rlo t - 1) j = true).
+    { intros j Hj. apply H. unfold colsq. apply in_seq. lia. }
+    unfold star, sfull, strips. cbn [rlo rhi clo chi]. repeat split; try lia.
+    - intros i j Hi Hj. destruct (Nat.eq_dec i (rlo t - 1)) as [->|Hne]; [apply L; lia|apply F; lia].
+    - intros i j Hij. star_cases Sp i j Hij.
+      + left. lia.
+      + destruct (Nat.eq_dec i (rlo t - 1)) as [->|Hne]; [left; lia|].
+        right; left. repeat split; try lia. intros i' Hi'.
+        match goal with X : forall i', _ -> f i' j = true |- _ => apply X; lia end.
+      + right; right; left. repeat split; auto; lia.
+      + right; right; right; left. repeat split; auto; lia.
+      + right; right; right; right. repeat split; auto; lia.
+  Qed.
+
+  Lemma grow_south t : star t -> southfull t = true -> star (mkSR (rlo t) (S (rhi t)) (clo t) (chi t)).
+  Proof.
+    intros (A & B & F & Sp) H. unfold southfull in H. rewrite forallb_forall in H.
+    assert (L : forall j, clo t <= j <= chi t -> f (S (rhi t)) j = true).
+    { intros j Hj. apply H. unfold colsq. apply in_seq. lia. }
+    unfold star, sfull, strips. cbn [rlo rhi clo chi]. repeat split; try lia.
+    - intros i j Hi Hj. destruct (Nat.eq_dec i (S (rhi t))) as [->|Hne]; [apply L; lia|apply F; lia].
+    - intros i j Hij. star_cases Sp i j Hij.
+      + left. lia.
+      + right; left. repeat split; auto; lia.
+      + destruct (Nat.eq_dec i (S (rhi t))) as [->|Hne]; [left; lia|].
+        right; right; left. repeat split; try lia. intros i' Hi'.
+        match goal with X : forall i', _ -> f i' j = true |- _ => apply X; lia end.
+      + right; right; right; left. repeat split; auto; lia.
+      + right; right; right; right. repeat split; auto; lia.
+  Qed.
+
+  Definition closed (t : SRect) : Prop :=
+    westfull t = false /\ eastfull t = false /\ northfull t = false /\ southfull t = false.
+
+  Lemma grow : forall n t, star t -> rlo t + clo t + (nr - rhi t) + (nc - chi t) <= n ->
+    exists t', star t' /\ closed t'.
+  Proof.
+    induction n as [|n IH]; intros t St Hm.
+    - exfalso. pose proof (star_in_grid t St). lia.
+    - pose proof (star_in_grid t St) as [G1 G2].
+      destruct (westfull t) eqn:Ew.
+      { apply (IH _ (grow_west t St Ew)). unfold westfull in Ew. apply andb_true_iff in Ew.
+        destruct Ew as [Ew _]. apply Nat.ltb_lt in Ew. cbn [rlo rhi clo chi]. lia. }
+      destruct (eastfull t) eqn:Ee.
+      { apply (IH _ (grow_east t St Ee)). cbn [rlo rhi clo chi]. lia. }
+      destruct (northfull t) eqn:En.
+      { apply (IH _ (grow_north t St En)). unfold northfull in En. apply andb_true_iff in En.
+        destruct En as [En _]. apply Nat.ltb_lt in En. cbn [rlo rhi clo chi]. lia. }
+      destruct (southfull t) eqn:Es.
+      { apply (IH _ (grow_south t St Es)). cbn [rlo rhi clo chi]. lia. }
+      exists t. split; [exact St|]. repeat split; assumption.
+  Qed.
+
+  (* ---- what a closed star centre looks like ---- *)
+  Lemma star_rowconvex t k : star t -> rlo t <= k <= rhi t ->
+    forall x y z, x <= y <= z -> f k x = true -> f k z = true -> f k y = true.
+  Proof.
+    intros (A & B & F & Sp) Hk x y z Hxyz Hx Hz.
+    destruct (le_lt_dec (clo t) y) as [Q1|Q1]; [destruct (le_lt_dec y (chi t)) as [Q2|Q2]|].
+    - apply F; lia.
+    - star_cases Sp k z Hz; try lia.
+      match goal with X : forall j', _ -> f k j' = true |- _ => apply X; lia end.
+    - star_cases Sp k x Hx; try lia.
+      match goal with X : forall j', _ -> f k j' = true |- _ => apply X; lia end.
+  Qed.
+  Lemma star_colconvex t k : star t -> clo t <= k <= chi t ->
+    forall x y z, x <= y <= z -> f x k = true -> f z k = true -> f y k = true.
+  Proof.
+    intros (A & B & F & Sp) Hk x y z Hxyz Hx Hz.
+    destruct (le_lt_dec (rlo t) y) as [Q1|Q1]; [destruct (le_lt_dec y (rhi t)) as [Q2|Q2]|].
+    - apply F; lia.
+    - star_cases Sp z k Hz; try lia.
+      match goal with X : forall i', _ -> f i' k = true |- _ => apply X; lia end.
+    - star_cases Sp x k Hx; try lia.
+      match goal with X : forall i', _ -> f i' k = true |- _ => apply X; lia end.
+  Qed.
+
+  Lemma star_corner t i j : star t -> (i < rlo t \/ rhi t < i) -> (j < clo t \/ chi t < j) -> f i j = false.
+  Proof.
+    intros (A & B & F & Sp) Hi Hj. destruct (f i j) eqn:E; [|reflexivity]. exfalso.
+    star_cases Sp i j E; lia.
+  Qed.
+
+  Lemma closed_west t : westfull t = false ->
+    clo t = 0 \/ exists k, rlo t <= k <= rhi t /\ f k (clo t - 1) = false.
+  Proof.
+    unfold westfull. intros H. apply andb_false_iff in H. destruct H as [H|H].
+    - left. apply Nat.ltb_ge in H. lia.
+    - right. destruct (forallb_false_ex _ _ H) as (k & Hk & Hf). exists k. unfold rowsq in Hk.
+      apply in_seq in Hk. split; [lia|exact Hf].
+  Qed.
+  Lemma closed_east t : eastfull t = false -> exists k, rlo t <= k <= rhi t /\ f k (S (chi t)) = false.
+  Proof.
+    unfold eastfull. intros H. destruct (forallb_false_ex _ _ H) as (k & Hk & Hf). exists k.
+    unfold rowsq in Hk. apply in_seq in Hk. split; [lia|exact Hf].
+  Qed.
+  Lemma closed_north t : northfull t = false ->
+    rlo t = 0 \/ exists j, clo t <= j <= chi t /\ f (rlo t - 1) j = false.
+  Proof.
+    unfold northfull. intros H. apply andb_false_iff in H. destruct H as [H|H].
+    - left. apply Nat.ltb_ge in H. lia.
+    - right. destruct (forallb_false_ex _ _ H) as (k & Hk & Hf). exists k. unfold colsq in Hk.
+      apply in_seq in Hk. split; [lia|exact Hf].
+  Qed.
+  Lemma closed_south t : southfull t = false -> exists j, clo t <= j <= chi t /\ f (S (rhi t)) j = false.
+  Proof.
+    unfold southfull. intros H. destruct (forallb_false_ex _ _ H) as (k & Hk & Hf). exists k.
+    unfold colsq in Hk. apply in_seq in Hk. split; [lia|exact Hf].
+  Qed.
+End Star.
